@@ -446,6 +446,12 @@ func checkRangePipeline(p *Prog, r *Report, rng *ssa.Function, pc *panicChecker)
 							case "(sortedResources).Sort":
 								sortCall = c
 							}
+							// a sorting helper: hands a sortedResources to the sort package
+							if fn := fullName(c2.Common().StaticCallee()); fn == "sort.Sort" || fn == "sort.Stable" {
+								if len(c2.Common().Args) == 1 && structName(unbox(c2.Common().Args[0]).Type()) == "sortedResources" {
+									sortCall = c
+								}
+							}
 						}
 					})
 				}
@@ -461,9 +467,64 @@ func checkRangePipeline(p *Prog, r *Report, rng *ssa.Function, pc *panicChecker)
 				if _, isAlloc := ld.X.(*ssa.Alloc); isAlloc {
 					pageAppends = append(pageAppends, c)
 				}
+			} else if _, isSplice := stripValue(c.Call.Args[0]).(*ssa.Slice); !isSplice && len(c.Call.Args) == 2 {
+				// a plain local list: classified by what is appended
+				if elem := appendedElem(c); elem != nil {
+					if ac, _ := callOf(elem); ac != nil && ac.Common().IsInvoke() && ac.Common().Method.Name() == "At" {
+						selectAppends = append(selectAppends, c)
+					}
+				}
 			}
 		}
 	})
+	// stages that live in phase helpers working on plain lists: an append of an
+	// element obtained from Collection.At is a selection append, an append of
+	// list[i] (i a loop counter) is a page append; the instruction that stands
+	// for the stage in Range is the call of the helper
+	stageOf := map[*ssa.Call]ssa.Instruction{}
+	for _, g := range stringHelpers(rng) {
+		var callInRng *ssa.Call
+		eachInstr(rng, func(ins ssa.Instruction) {
+			if c, ok := ins.(*ssa.Call); ok && c.Common().StaticCallee() == g {
+				callInRng = c
+			}
+		})
+		if callInRng == nil {
+			continue
+		}
+		eachInstr(g, func(ins ssa.Instruction) {
+			c, ok := ins.(*ssa.Call)
+			if !ok || builtinName(c.Common()) != "append" || len(c.Common().Args) != 2 {
+				return
+			}
+			if _, isSplice := stripValue(c.Common().Args[0]).(*ssa.Slice); isSplice {
+				return
+			}
+			elem := appendedElem(c)
+			if elem == nil {
+				return
+			}
+			if ac, _ := callOf(elem); ac != nil && ac.Common().IsInvoke() && ac.Common().Method.Name() == "At" {
+				selectAppends = append(selectAppends, c)
+				stageOf[c] = callInRng
+				return
+			}
+			if ld, ok := elem.(*ssa.UnOp); ok && ld.Op == token.MUL {
+				if ia, ok := ld.X.(*ssa.IndexAddr); ok {
+					if _, isPhi := ia.Index.(*ssa.Phi); isPhi {
+						pageAppends = append(pageAppends, c)
+						stageOf[c] = callInRng
+					}
+				}
+			}
+		})
+	}
+	stage := func(c *ssa.Call) ssa.Instruction {
+		if s, ok := stageOf[c]; ok {
+			return s
+		}
+		return c
+	}
 	if filterCall == nil || sortCall == nil || len(pageAppends) == 0 || len(selectAppends) == 0 {
 		r.bad("C09.pipeline", "Range:stages", p.pos(rng.Pos()), "cannot identify the four stages (selection appends, IsAllowed, Sort, page appends) in Range")
 		return
@@ -471,7 +532,7 @@ func checkRangePipeline(p *Prog, r *Report, rng *ssa.Function, pc *panicChecker)
 	// order: no path from a later stage back to an earlier one, and each earlier stage can reach the later
 	okOrder := true
 	for _, sa := range selectAppends {
-		if reachableAvoiding(filterCall, sa, nil) || reachableAvoiding(sortCall, sa, nil) {
+		if reachableAvoiding(filterCall, stage(sa), nil) || reachableAvoiding(sortCall, stage(sa), nil) {
 			okOrder = false
 		}
 	}
@@ -479,11 +540,11 @@ func checkRangePipeline(p *Prog, r *Report, rng *ssa.Function, pc *panicChecker)
 		okOrder = false
 	}
 	for _, pa := range pageAppends {
-		if reachableAvoiding(pa, sortCall, nil) || reachableAvoiding(pa, filterCall, nil) {
+		if reachableAvoiding(stage(pa), sortCall, nil) || reachableAvoiding(stage(pa), filterCall, nil) {
 			okOrder = false
 		}
 		// the sort call lies on every path to the page loop
-		if !mustPassInstr(rng, pa, func(ins ssa.Instruction) bool { return ins == ssa.Instruction(sortCall) }) {
+		if !mustPassInstr(rng, stage(pa), func(ins ssa.Instruction) bool { return ins == ssa.Instruction(sortCall) }) {
 			okOrder = false
 		}
 	}
@@ -515,8 +576,8 @@ func checkRangePipeline(p *Prog, r *Report, rng *ssa.Function, pc *panicChecker)
 		}
 	}
 	// the element appended to the page is col.col[i] with i the page-loop counter
-	bf := pc.bf(rng)
 	for _, pa := range pageAppends {
+		bf := pc.bf(pa.Parent())
 		key := "Range:" + p.describe(pa)
 		// appended element
 		var elem ssa.Value
@@ -591,4 +652,32 @@ func checkRangePipeline(p *Prog, r *Report, rng *ssa.Function, pc *panicChecker)
 		r.decide(good, "C09.pipeline", key+":page-window", p.pos(pa.Pos()), "the page is list[num*size : min(len, num*size+size)]",
 			fmt.Sprintf("the page loop is not 'for i := int(num*size); i < len(list) && i < skip+int(size); i++' (init ok=%v, step ok=%v, i<len ok=%v, i<skip+size ok=%v): the page window is wrong", initOK, stepOK, condLen, condSize))
 	}
+}
+
+// appendedElem: the single element of append(xs, e).
+func appendedElem(c *ssa.Call) ssa.Value {
+	sl, ok := c.Common().Args[1].(*ssa.Slice)
+	if !ok {
+		return nil
+	}
+	al, ok := sl.X.(*ssa.Alloc)
+	if !ok {
+		return nil
+	}
+	var elem ssa.Value
+	n := 0
+	for _, ref := range referrers(al) {
+		if ia, ok := ref.(*ssa.IndexAddr); ok {
+			for _, r2 := range referrers(ia) {
+				if st, ok := r2.(*ssa.Store); ok {
+					elem = st.Val
+					n++
+				}
+			}
+		}
+	}
+	if n != 1 {
+		return nil
+	}
+	return elem
 }
